@@ -31,6 +31,7 @@
 -/
 import ASV.Proofs.LocOrder
 import ASV.Proofs.LocString
+import ASV.Proofs.LocMergeAdjacent
 import ASV.Proofs.LocExtend
 import ASV.Proofs.LocConnectRing
 import ASV.Proofs.LocOffsetArea
@@ -355,6 +356,26 @@ theorem key_order_strict_weak :
     (∀ a b c, (keyLt a b = false ∧ keyLt b a = false) → (keyLt b c = false ∧ keyLt c b = false) →
       (keyLt a c = false ∧ keyLt c a = false)) :=
   ⟨keyLt_irrefl, keyLt_trans, keyLt_incomp_trans⟩
+
+/-! ### the merge step of `offset_location` (any number of parts) -/
+
+/-- after the repair D58 the merging of shifted parts that abut (each ending where the next starts) loses
+    nothing, for runs of any length: the merged parts have the same total length and name exactly the same
+    bases as the shifted parts -/
+theorem offset_merge_keeps_bases (first : Part) (rest out : List Part)
+    (hwf : ∀ p ∈ first :: rest, p.lo ≤ p.hi) (h : mergeAdjacent [first] first rest = .ok out) :
+    partsLen out = partsLen (first :: rest) ∧ ∀ x, coversB out x ↔ coversB (first :: rest) x := by
+  refine ⟨?_, fun x => ?_⟩
+  · have := mergeAdjacent_len rest [first] first out ⟨_, _, rfl, rfl⟩ h
+    rw [this]; simp [partsLen]
+  · have := mergeAdjacent_bases rest [first] first out ⟨_, _, rfl, rfl, hwf first (by simp)⟩
+      (fun p hp => hwf p (List.mem_cons_of_mem _ hp)) h x
+    rw [this]; simp [coversB]
+
+/-- the run of the defect report: `[80:90), [90:100), [0:10)` shifted by 20 on a record of 100 -/
+example : mergeAdjacent [⟨0, 10, .fwd⟩] ⟨0, 10, .fwd⟩ [⟨10, 20, .fwd⟩, ⟨20, 30, .fwd⟩] = .ok [⟨0, 30, .fwd⟩] := by rfl
+/-- … and what the loop made of it before D58: 20 bases -/
+example : mergeAdjacentBeforeD58 [⟨0, 10, .fwd⟩] ⟨0, 10, .fwd⟩ [⟨10, 20, .fwd⟩, ⟨20, 30, .fwd⟩] = .ok [⟨10, 30, .fwd⟩] := by rfl
 
 /-! ### textual form -/
 
